@@ -447,6 +447,17 @@ Section Agree.
       split; [cbn [eval_cond]; rewrite P1; reflexivity|].
       split; [|exact B1].
       intros more'. cbn [eval_pred]. rewrite V1. now apply truth_sound.
+    - (* membership in a literal set *)
+      destruct it0 as [v ch| | |]; try discriminate.
+      apply andb_true_iff in Hs. destruct Hs as [Hs1 Hs2].
+      destruct (operand_data sc w sel root o (OAttr v ch)) as [a|] eqn:Ea; try discriminate.
+      destruct (toperand_ok _ _ _ _ Hinv He Hs1 Ea) as [e1 [st1 [m1 [T1 [I1 [R1 [V1 [P1 [S1 [B1 N1]]]]]]]]]].
+      exists (SIn e1 cs0), st1, m1, (existsb (fun c => val_eq eq_fuel w a c) cs0).
+      cbn [tcond]. unfold tcontains. rewrite (shape_not_rel _ Hs1). cbn [is_rel orb]. cbn [toperand] in T1. rewrite T1.
+      split; [reflexivity|]. split; [assumption|]. split; [assumption|].
+      split; [cbn [eval_cond eval_operand]; cbn [eval_operand] in P1; rewrite P1; reflexivity|].
+      split; [|simpl; now rewrite B1, unbindable_scalars].
+      intros more'. cbn [eval_pred]. rewrite V1. now apply in_sound.
   Qed.
 End Agree.
 
@@ -519,6 +530,14 @@ Proof.
     destruct (tattr sc sel root st v ch) as [a st1| | |] eqn:E1; try discriminate. injection H as <- <-.
     assert (B1 := toperand_safe (OAttr v ch) st a st1 Hc E1).
     intros p0 Hp. injection Hp as <-. exact B1.
+  - destruct it0 as [v ch| | |]; try discriminate.
+    apply andb_true_iff in Hc. destruct Hc as [Hc1 Hc2].
+    cbn [tcond] in H. unfold tcontains in H.
+    destruct (is_rel sc vars (OList cs0) || is_rel sc vars (OAttr v ch)); try discriminate.
+    destruct (tattr sc sel root st v ch) as [a st1| | |] eqn:E1; try discriminate.
+    injection H as <- <-.
+    assert (B1 := toperand_safe (OAttr v ch) st a st1 Hc1 E1).
+    intros p0 Hp. injection Hp as <-. simpl. rewrite B1. now apply unbindable_scalars.
 Qed.
 
 Definition relonly (st : jm) : Prop := forallb is_jrel (j_joins st) = true.
@@ -574,6 +593,12 @@ Proof.
   - destruct x as [v ch| | |]; try discriminate. cbn [tcond] in H.
     destruct (tattr sc sel root st v ch) as [a st1| | |] eqn:E1; try discriminate. injection H as _ <-.
     eapply (toperand_relonly (OAttr v ch)); eauto.
+  - destruct it0 as [v ch| | |]; try discriminate.
+    apply andb_true_iff in Hc. destruct Hc as [Hc1 Hc2].
+    cbn [tcond] in H. unfold tcontains in H.
+    destruct (is_rel sc vars (OList cs0) || is_rel sc vars (OAttr v ch)); try discriminate.
+    destruct (tattr sc sel root st v ch) as [a st1| | |] eqn:E1; try discriminate.
+    injection H as _ <-. eapply (toperand_relonly (OAttr v ch)); eauto.
 Qed.
 End Syn.
 
@@ -827,6 +852,10 @@ Proof.
     destruct (IH1 Hc1 true st) as [a [st1 T1]]. rewrite T1. destruct (IH2 Hc2 true st1) as [b [st2 T2]]. rewrite T2. simpl. eauto.
   - destruct x as [v ch| | |]; try discriminate. cbn [tcond].
     destruct (toperand_total _ st Hc) as [a [st1 [T1 _]]]. cbn [toperand] in T1. rewrite T1. eauto.
+  - destruct it0 as [v ch| | |]; try discriminate.
+    apply andb_true_iff in Hc. destruct Hc as [Hc1 Hc2]. cbn [tcond]. unfold tcontains.
+    rewrite (shape_not_rel sc sel root vars Hvars _ Hc1). cbn [is_rel orb].
+    destruct (toperand_total _ st Hc1) as [a [st1 [T1 _]]]. cbn [toperand] in T1. rewrite T1. eauto.
 Qed.
 End SynTotal.
 
